@@ -1,6 +1,8 @@
 import DltypeModel
+import Spec
+import Proofs.Complete
 namespace Dltype.C02
-open Dltype
+open Dltype Dltype.Spec Dltype.Proofs
 
 theorem returnPhase_value (acc : Acc) (d : FuncDecl) (st : CState) (v w : Value)
     (h : returnPhase acc d st v = .returned w) : w = v := by
@@ -38,5 +40,31 @@ theorem returned_is_body_value (acc : Acc) (d : FuncDecl) (p : Provider) (args :
     | reject r => simp [ha] at h
     | pyExc e => simp [ha] at h
     | unmodelled => simp [ha] at h
+
+theorem keys_has (σ : Scope) (x : Name) (hx : x ∈ σ.keys) : σ.has x = true := by
+  induction σ with
+  | nil => simp [Scope.keys] at hx
+  | cons p ps ih =>
+    obtain ⟨k, v⟩ := p
+    simp only [Scope.keys, List.map_cons, List.mem_cons] at hx
+    by_cases hk : k = x
+    · simp [Scope.has, Scope.get?, hk]
+    · rcases hx with rfl | hx
+      · exact absurd rfl hk
+      · have := ih hx
+        simpa [Scope.has, Scope.get?, hk] using this
+
+/-- C02a (context level): if every annotated tensor of a context conforms to one common assignment `σ`
+    that contains the provider's bindings `σ₀` (rank, dtype and literal axes pass the standalone check; every
+    non-anonymous axis has the size `σ` gives its dimension's identifier; every literal / expression /
+    `name=…` dimension evaluates to the size of its axis under `σ`; a `*name` group absorbs the number of
+    axes `σ` records), display names are distinct, and every name used inside an expression is bound by an
+    earlier dimension in source order or by the provider, then the context is accepted: no rejection and no
+    other exception comes out of the checker, and the final bindings are part of `σ`. -/
+theorem complete (acc : Acc) (σ₀ σ : Scope) (es : List Entry)
+    (hle : ScopeLe σ₀ σ) (hs : ∀ e ∈ es, EntryStrong acc σ e) (hfresh : NamesFresh [] es)
+    (hr : RefsOrdered σ₀.keys es) :
+    ∃ st', runEntries acc { σ := σ₀ } es = .ok st' ∧ ScopeLe st'.σ σ := by
+  exact runEntries_complete acc { σ := σ₀ } es σ σ₀.keys hle (fun x hx => keys_has σ₀ x hx) hs hfresh hr
 
 end Dltype.C02
